@@ -209,6 +209,7 @@ def run_cases(prop_name: str, cases: list, jobs: int, seed: int, progress=None) 
         for res in pool.imap_unordered(_run_chunk, chunks):
             total.merge(res)
             done += 1
-            if progress and time.time() - t0 > 20:
+            if progress and time.time() - t0 > 30:
+                t0 = time.time()
                 progress(done, len(chunks))
     return total
